@@ -454,6 +454,20 @@ func ruleR023(c *Ctx) {
 		return
 	}
 	fwd := c.forwarders(a)
+	// helpers that generate children and return (…code…, pure bool, err error) with more than one piece of code
+	genHelpers := map[*types.Func]bool{}
+	for _, gi := range c.generatorFuncs(a, fwd) {
+		obj, _ := gi.pkg.TypesInfo.Defs[gi.decl.Name].(*types.Func)
+		if obj == nil {
+			continue
+		}
+		sig := obj.Type().(*types.Signature)
+		if n := sig.Results().Len(); n > 3 && isErrorType(sig.Results().At(n-1).Type()) {
+			if b, ok := sig.Results().At(n-2).Type().Underlying().(*types.Basic); ok && b.Kind() == types.Bool {
+				genHelpers[obj.Origin()] = true
+			}
+		}
+	}
 	for _, gi := range c.generatorFuncs(a, fwd) {
 		info := gi.pkg.TypesInfo
 		gname := declName(gi.pkg, gi.decl)
@@ -536,10 +550,22 @@ func ruleR023(c *Ctx) {
 				resTypes = append(resTypes, info.TypeOf(f.Type))
 			}
 		}
-		if len(resTypes) != 3 || !a.containsParserFunc(resTypes[0], 0) {
+		// (…code…, pure bool, err error): the generator functions themselves have three results, helpers may return
+		// several pieces of code
+		nRes := len(resTypes)
+		if nRes < 3 || !isErrorType(resTypes[nRes-1]) {
 			continue
 		}
-		if b, ok := resTypes[1].Underlying().(*types.Basic); !ok || b.Kind() != types.Bool {
+		hasCode := false
+		for _, rt := range resTypes[:nRes-2] {
+			if a.containsParserFunc(rt, 0) {
+				hasCode = true
+			}
+		}
+		if !hasCode {
+			continue
+		}
+		if b, ok := resTypes[nRes-2].Underlying().(*types.Basic); !ok || b.Kind() != types.Bool {
 			continue
 		}
 		g := c.CFG(gi.decl)
@@ -553,7 +579,7 @@ func ruleR023(c *Ctx) {
 		var sites []site
 		inspectNoLit(gi.decl.Body, func(n ast.Node) bool {
 			as, ok := n.(*ast.AssignStmt)
-			if !ok || len(as.Rhs) != 1 || len(as.Lhs) != 3 {
+			if !ok || len(as.Rhs) != 1 || len(as.Lhs) < 3 {
 				return true
 			}
 			call, ok := ast.Unparen(as.Rhs[0]).(*ast.CallExpr)
@@ -561,10 +587,10 @@ func ruleR023(c *Ctx) {
 				return true
 			}
 			cal := Callee(info, call)
-			if cal == nil || !(cal == a.genFunc.Origin() || fwd[cal]) {
+			if cal == nil || !(cal == a.genFunc.Origin() || fwd[cal] || genHelpers[cal]) {
 				return true
 			}
-			pid, ok := as.Lhs[1].(*ast.Ident)
+			pid, ok := as.Lhs[len(as.Lhs)-2].(*ast.Ident)
 			if !ok || pid.Name == "_" {
 				key := fmt.Sprintf("%s#purity-of:%s", gname, nodeStr(c.Fset, as.Lhs[0]))
 				c.Violation(key, as.Pos(), "the purity result of generating %s is discarded", nodeStr(c.Fset, as.Lhs[0]))
@@ -636,7 +662,7 @@ func ruleR023(c *Ctx) {
 			cnt := 0
 			for _, f := range res.List {
 				for _, nm := range f.Names {
-					if cnt == 1 {
+					if cnt == nRes-2 {
 						namedPure = info.Defs[nm]
 					}
 					cnt++
@@ -650,17 +676,17 @@ func ruleR023(c *Ctx) {
 				return true
 			}
 			var pureExpr ast.Expr
-			if len(r.Results) == 3 {
+			if len(r.Results) == nRes {
 				if id, ok := ast.Unparen(r.Results[0]).(*ast.Ident); ok && id.Name == "nil" {
 					return true // error return
 				}
-				if id, ok := ast.Unparen(r.Results[2]).(*ast.Ident); !ok || id.Name != "nil" {
+				if id, ok := ast.Unparen(r.Results[nRes-1]).(*ast.Ident); !ok || id.Name != "nil" {
 					// returns a non-nil error expression or forwards (c, pure, nil) of the custom generator
 					if _, isCall := ast.Unparen(r.Results[0]).(*ast.CallExpr); !isCall {
 						return true
 					}
 				}
-				pureExpr = r.Results[1]
+				pureExpr = r.Results[nRes-2]
 			} else if len(r.Results) == 0 && namedPure != nil {
 				pureExpr = &ast.Ident{Name: namedPure.Name()}
 				info.Uses[pureExpr.(*ast.Ident)] = namedPure
